@@ -18,6 +18,8 @@ mod odd_str;
 #[cfg(feature = "bytes")]
 mod patch_ref;
 #[cfg(feature = "bytes")]
+mod pinned;
+#[cfg(feature = "bytes")]
 mod props;
 #[cfg(not(feature = "bytes"))]
 #[path = "props_nobytes.rs"]
